@@ -202,7 +202,7 @@ def det_frac(A):
     return d
 
 
-def check_case(ctx, line, meta, hout, dout, iout, stats, lout=None):
+def check_case(ctx, line, meta, hout, dout, iout, stats, lout=None, exact_info=True):
     """returns list of (key, what) problems; the first element says 'corr' (model/impl disagree)
     or 'prop' (implementation violates the property's own predicates)"""
     probs = []
@@ -259,7 +259,8 @@ def check_case(ctx, line, meta, hout, dout, iout, stats, lout=None):
         tolm = 64 * EPS * kS * (Kn * nnu + nx + 1e-300) * max(n, m)
         stats["max_kS"] = max(stats.get("max_kS", 0.0), kS)
         # theorem instance on the executed ℚ model: gain form == information form, exactly
-        if mP[c] != oP[c] or mm[c] != om[c]:
+        # (prior exactly symmetric: the theorem's hypothesis; beliefs a filter reaches are symmetric up to rounding only)
+        if exact_info and (mP[c] != oP[c] or mm[c] != om[c]):
             probs.append(("corr", "model-vs-information-form", "exact model output differs from (P^-1+H^T R^-1 H)^-1 form: theorem instance fails on Q"))
         # correspondence: implementation vs model
         errP = max(abs(Fraction(cP[c][i][j]) - mP[c][i][j]) for i in range(n) for j in range(n))
@@ -310,6 +311,66 @@ def check_case(ctx, line, meta, hout, dout, iout, stats, lout=None):
     return probs
 
 
+def plumbing(ctx, binary):
+    """LinearMeasurementModel::predictedMeasure / innovation on batches (model linPredictedMeasure /
+    linInnovation, theorem lin_innovation_col) and the LTIMeasurementModel constructor checks (model
+    ltiMeasCtor, theorem lti_ctor_ok_iff; all shape quadruples 0..3 enumerated)."""
+    g = ctx.gen("lmm")
+    r = g.r
+    prop_bad, corr_bad = [], []
+    lines = []
+    for i in range(ctx.n(24, 120)):
+        n, m, k, c = r.randint(1, 6), r.randint(1, 6), r.choice([1, 2, 3, 5]), r.choice([0, 0, 1, 3])
+        if i % 6 == 5:
+            n, m = r.choice([8, 12]), r.choice([7, 12])
+        H, X, Y = g.mat(m, n), g.mat(n, k), g.mat(m, c + 1)
+        if i % 4 == 1:
+            sc = 10 ** r.uniform(-12, 9)
+            X = [[sc * v for v in row] for row in X]
+            Y = [[sc * v for v in row] for row in Y]
+        lines.append(" ".join(["lmm", str(n), str(m), str(k)] + vlib.fmt_mat_cm(H) + vlib.fmt_mat_cm(X) + [str(c)] + vlib.fmt_mat_cm(Y)))
+    ct = ["ltictor %d %d %d %d" % (a, b, c, d) for a in range(4) for b in range(4) for c in range(4) for d in range(4)]
+    hout, logs = vlib.run_harness(binary, lines + ct)
+    dout = vlib.run_driver(lines + ct)
+    for ln, ho, do in zip(lines, hout, dout):
+        t = ln.split()
+        n, m, k = int(t[1]), int(t[2]), int(t[3])
+        if not ho.startswith("ok") or not do.startswith("ok"):
+            prop_bad.append(("plumbing-failed", "LinearMeasurementModel::predictedMeasure/innovation failed on a valid batch: %s / %s" % (ho[:60], do[:40]), ln, ho))
+            continue
+        try:
+            hv = [unhex(x) for x in ho.split()[1:]]
+            dv = [frac(x) for x in do.split()[1:]]
+            if len(hv) != 2 * m * k or len(dv) != 2 * m * k:
+                raise ValueError("shape")
+            H = vlib.mat_from_cm(t[4:4 + m * n], m, n, frac_of_hex)
+            X = vlib.mat_from_cm(t[4 + m * n:4 + m * n + n * k], n, k, frac_of_hex)
+            c = int(t[4 + m * n + n * k])
+            Y = vlib.mat_from_cm(t[5 + m * n + n * k:], m, c + 1, frac_of_hex)
+            for j in range(k):
+                for i in range(m):
+                    mag = sum(abs(H[i][l] * X[l][j]) for l in range(n))
+                    tol = 8 * EPS * n * float(mag) + 1e-300
+                    pe, ie = dv[j * m + i], dv[m * k + j * m + i]
+                    if abs(Fraction(hv[j * m + i]) - pe) > tol:
+                        prop_bad.append(("predicted-measure-wrong", "predictedMeasure(%d,%d) is not (H X)(%d,%d)" % (i, j, i, j), ln, ho)); raise StopIteration
+                    if abs(Fraction(hv[m * k + j * m + i]) - ie) > tol + 2 * EPS * abs(float(Y[i][0])):
+                        prop_bad.append(("innovation-wrong", "innovation(%d,%d) is not y_%d - (H x_%d)_%d" % (i, j, i, j, i), ln, ho)); raise StopIteration
+                    # the innovation is exactly the rounded difference of the model's own predicted measure
+                    if hv[m * k + j * m + i] != -(hv[j * m + i] - float(Y[i][0])):
+                        prop_bad.append(("innovation-not-difference", "innovation(%d,%d) is not measurement - predicted measurement" % (i, j), ln, ho)); raise StopIteration
+        except StopIteration:
+            pass
+        except Exception as ex:
+            prop_bad.append(("unreadable-result", "plumbing output cannot be evaluated (%s): %s" % (ex, ho[:80]), ln, ho))
+    bad_ct = 0
+    for ln, ho, do in zip(ct, hout[len(lines):], dout[len(lines):]):
+        if ho != do:
+            bad_ct += 1
+            prop_bad.append(("lti-ctor-check", "LTIMeasurementModel constructor with shapes H %sx%s, R %sx%s: %s, model %s" % (tuple(ln.split()[1:]) + (ho, do)), ln, ho))
+    return prop_bad, corr_bad, {"batches": len(lines), "ctor_shapes_enumerated": len(ct), "ctor_mismatches": bad_ct, "exhaustive": "all (rows(H), cols(H), rows(R), cols(R)) in 0..3"}
+
+
 def replay_case(path):
     """re-run the input recorded in a replay file (a kfcv / kfcs sequence line or a single kfc line)"""
     import json
@@ -354,8 +415,18 @@ def run(ctx):
                 cases.append((ln.strip(), [ln.strip()], {"style": "corpus", "calls": 1}))
     for i in range(N):
         cases.append(gen_case(g, ctx.tier, i))
+    hist_replay = None
     if ctx.replay:
-        cases = [replay_case(ctx.replay)]
+        import json
+        rl = json.load(open(ctx.replay))["replay"]["input_line"]
+        if rl.split()[0] in ("kfh", "kfht"):
+            from checks import kfhist
+            hist_replay = kfhist.parse_line(rl)
+            cases = []
+        elif rl.split()[0] in ("lmm", "ltictor"):
+            cases = []
+        else:
+            cases = [replay_case(ctx.replay)]
     hlines = [c[0] for c in cases]
     hout, logs = vlib.run_harness(binary, hlines)
     singles = [l for c in cases for l in c[1]]
@@ -391,6 +462,18 @@ def run(ctx):
             for kind, key2, what in res:
                 (corr_bad if kind == "corr" else prop_bad).append((key2, what, hline, h))
             pos += 1
+    # --- whole filter histories (Model/KFHist.lean) and the measurement-model plumbing
+    from checks import kfhist
+    hstats, pstats = {}, {}
+    if not ctx.replay or hist_replay:
+        hists = [hist_replay] if hist_replay else [kfhist.gen_history(ctx.gen("kfh"), i, ctx.tier) for i in range(ctx.n(26, 120))]
+        hp, hc, hstats = kfhist.run_histories(ctx, binary, hists, "C01")
+        prop_bad += hp
+        corr_bad += hc
+    if not ctx.replay:
+        pp, pc, pstats = plumbing(ctx, binary)
+        prop_bad += pp
+        corr_bad += pc
     for key2, what, line, h in prop_bad[:20]:
         ctx.violation(key2, "KFCorrection: " + what, {"harness": "h_kf", "input_line": line, "observed": h[:2000]})
     if corr_bad and not prop_bad:
@@ -412,6 +495,7 @@ def run(ctx):
         "traces_validated_against_impl": ncalls_total,
         "model_vs_impl_disagreements": len(corr_bad), "property_failures_on_impl": len(prop_bad),
         "sanitizer_crashes": len(logs),
+        "filter_histories": hstats, "measurement_model_plumbing": pstats,
     })
     ctx.assumptions += ["inverse routine contract InvOn certified exactly on every call of the Q execution",
                         "floating point: implementation compared with exact rational model within 64*eps*cond(S)*scale"]
